@@ -8,6 +8,8 @@ From XcpProofs Require Import ExtractedOk.
 From XcpModel Require Import Walker Ops ConcBlock ConcOutcome.
 From XcpProofs Require Import OpsProofs ConcBlockProofs ConcOutcomeProofs.
 From Coq Require Import Permutation.
+From XcpProofs Require Import PinnedSource.
+From XcpPins Require Import Pin_common_copy_owner Pin_common_copy_permissions Pin_common_copy_timestamps Pin_operations_finalise_copy.
 
 (* for ALL modes (0..07777 and beyond: masked), times, xattr sets, uid/gid and
    flag combinations, and any previous destination metadata *)
@@ -86,9 +88,24 @@ Proof.
   exists bs, A, F. rewrite Hacts, Hl. auto.
 Qed.
 
+(* ---- the glue functions this property's hand-written model mirrors are, token for token, the ones it was
+   validated against (an edit re-opens the obligation; harness/repin.py re-pins after re-validation) ---- *)
+Theorem C10_src_pin_common_copy_owner : pin_unchanged name_common_copy_owner.
+Proof. exact pin_common_copy_owner. Qed.
+Theorem C10_src_pin_common_copy_permissions : pin_unchanged name_common_copy_permissions.
+Proof. exact pin_common_copy_permissions. Qed.
+Theorem C10_src_pin_common_copy_timestamps : pin_unchanged name_common_copy_timestamps.
+Proof. exact pin_common_copy_timestamps. Qed.
+Theorem C10_src_pin_operations_finalise_copy : pin_unchanged name_operations_finalise_copy.
+Proof. exact pin_operations_finalise_copy. Qed.
+
 Print Assumptions C10_meta_preserved.
 Print Assumptions C10_ownership_keeps_setid.
 Print Assumptions C10_flags_suppress_actions.
 Print Assumptions C10_create_mode.
 Print Assumptions C10_src_finalise_order.
 Print Assumptions C10_metadata_after_data_in_every_schedule.
+Print Assumptions C10_src_pin_common_copy_owner.
+Print Assumptions C10_src_pin_common_copy_permissions.
+Print Assumptions C10_src_pin_common_copy_timestamps.
+Print Assumptions C10_src_pin_operations_finalise_copy.
